@@ -443,6 +443,13 @@ def space_episodes(seed, count):
         pairs += [(n, 0), (n, max(0, n - 1)), (n, n), (n, 2 * n - 1 if n else 0), (n, 2 * n), (n, 3 * n + 1), (n, M), (n, 2 ** 63)]
     r.shuffle(pairs)
     pairs = pairs[:count] + [(r.choice([1, 3, 10, 100, 777]), r.randrange(M + 1)) for _ in range(count // 4)]
+    while len(pairs) < count + count // 4:
+        # further ratios around powers of two for arbitrary n
+        n = r.choice([r.randrange(1, 70), r.randrange(1, 3000)])
+        e = r.randrange(0, 64)
+        u = n * (1 << e) + r.choice([-1, 0, 1, r.randrange(-n, n + 1)])
+        if 0 <= u <= M:
+            pairs.append((n, u))
     for n, u in pairs:
         xs = make_seq(r, n, u)
         how = r.choice(["extend", "push", "from", "cfill"]) if n <= 200 else r.choice(["extend", "from", "cfill"])
